@@ -151,7 +151,7 @@ PROPS['C01'] = {
              {'name': 'clang', 'flavour': 'clang-asan', 'driver': 'drv_c01', 'env': {'PV_SCALE': '15'}, 'shards': 6},
              {'name': 'native', 'flavour': 'asan-native', 'driver': 'drv_c01', 'env': {'PV_SCALE': '10'}, 'shards': 4},
              {'name': 'asan-dbg', 'flavour': 'asan-dbg', 'driver': 'drv_c01', 'env': {'PV_SCALE': '10'}, 'shards': 4}],
-    'require': {'auto.ok': 50000, 'auto.mult_lang': 100, 'ambiguous.constructed': 500, 'roundtrip.how.created': 5000, 'roundtrip.how.crypted': 5000, 'axes.cases': 3000},
+    'require': {'auto.ok': 50000, 'auto.mult_lang': 100, 'ambiguous.constructed': 500, 'roundtrip.how.created': 5000, 'roundtrip.how.crypted': 5000, 'axes.cases': 3000, 'second_generation.ok': 100000},
 }
 MANIFEST_TEXT['C01'] = {'technique': 'runtime monitoring: encode/decode round trips observed through every seed observer vs reference model (ASan/UBSan, NDEBUG and assertion-enabled builds)',
     'text': 'Seeds (boundary-biased and random; created, loaded or encrypted) are encoded in every language for boundary and random coins under all 8 enabled-feature masks, compared with the model phrase, and decoded by both decoders; the result is compared through store bytes, birthday, all feature masks, encrypted flag and the full PBKDF2 argument list. Auto-detection must return the same seed and language or MULT_LANG exactly when the model matcher finds a second recognising language; ambiguous phrases are constructed for every overlapping language pair. Every coin, birthday and feature value is visited at least once. A clang-built stripe of the same workload guards against compiler-dependent behaviour.',
@@ -163,7 +163,7 @@ PROPS['C02'] = {
     'runs': [{'name': 'plain', 'flavour': 'plain', 'driver': 'drv_c02', 'timeout': 1800},
              {'name': 'asan', 'flavour': 'asan', 'driver': 'drv_c02', 'env': {'PV_SCALE': '5'}, 'shards': 6},
              {'name': 'native', 'flavour': 'asan-native', 'driver': 'drv_c02', 'env': {'PV_SCALE': '5'}, 'shards': 6}],
-    'require': {'arith.correct_validates': 30720, 'arith.wrong_rejected': 400000, 'subst.detected': 300000, 'swap.detected': 2000, 'unique.exactly_one': 50, 'load.wrong_check_rejected': 50000},
+    'require': {'arith.correct_validates': 30720, 'arith.wrong_rejected': 400000, 'subst.detected': 300000, 'swap.detected': 2000, 'unique.exactly_one': 50, 'load.wrong_check_rejected': 50000, 'decodes.with_failing_allocator': 100000, 'phrases.with_a_respelled_word': 20000},
 }
 MANIFEST_TEXT['C02'] = {'technique': 'runtime monitoring: exhaustive field-element x position sweep and full substitution/swap neighbourhoods through the decoders vs model check value',
     'text': 'The arithmetic core is driven through polyseed_decode_explicit for every field element at every data position (all 2047 wrong check words per case in thorough, 16 in quick); for random valid phrases of every language all 16x2047 substitutions and all 120 swaps must give exactly ERR_CHECKSUM; for random data words exactly one of the 2048 check words validates and equals the model value; stored seeds with each wrong check value must not load.',
@@ -212,7 +212,7 @@ PROPS['C10'] = {
              {'name': 'asan-dbg', 'flavour': 'asan-dbg', 'driver': 'drv_c10', 'env': {'PV_SCALE': '25'}, 'shards': 6},
              {'name': 'native', 'flavour': 'asan-native', 'driver': 'drv_c10', 'env': {'PV_SCALE': '25'}, 'shards': 4}],
     'require': {'default.cells_ok': 32, 'matrix.cells_with_reinjection': 1500, 'history.reinjections': 1000, 'enable.return_ok': 6000, 'cell.load.OK': 1000, 'cell.load.ERR_UNSUPPORTED': 1000, 'cell.decode.ERR_UNSUPPORTED': 1000,
-                'cell.decode_explicit.ERR_UNSUPPORTED': 1000, 'cell.create.ERR_UNSUPPORTED': 500, 'cell.create.OK': 500, 'getters.checked': 5000, 'history.creates_ok': 5000},
+                'cell.decode_explicit.ERR_UNSUPPORTED': 1000, 'cell.create.ERR_UNSUPPORTED': 500, 'cell.create.OK': 500, 'getters.checked': 5000, 'history.creates_ok': 5000, 'cell.create.ERR_UNSUPPORTED(allocator failing)': 500},
 }
 MANIFEST_TEXT['C10'] = {'technique': 'runtime monitoring: exhaustive argument x feature-value x entry-point matrix through the API vs model (ASan/UBSan)',
     'text': 'Every enabling argument (0..7 and arguments with high bits) x every 5-bit feature value x {create, decode, decode_explicit, load}, directly and after random prior enabling calls, over sampled seeds/languages/coins: status must be UNSUPPORTED exactly when a bit outside the enabled user bits and the encrypted bit is set; enable_features must return popcount(arg&7); getters must return value&q&7; features must survive phrase, storage and crypt round trips; the default mask is observed in fresh processes. Dependencies are re-injected between the enabling call and the use in half of the cells (injection must not touch the mask), and the matrix also runs on the assertion-enabled build.',
